@@ -259,6 +259,47 @@ def rule_sole_writer(ctx):
                   "the destination parameter also flows into %s" % [cv.short for _, cv in bad] if uses else "destination parameter unused")
 
 
+def rule_dest_errors_abort(ctx, R="C09/dest-errors-abort"):
+    """a failed destination write/seek inside DirSection::write_to_file leaves the destination position and the flushed mark in an
+    unknown relation (C09/save-restore needs the restoring seek to succeed): the request has to abort.  Every write_to_file result in
+    generate_dump is `?`-propagated: its Break arm reaches only error returns and never another destination write or the success return."""
+    from rules import c01
+    b = ctx.body(R, c01.GEN)
+    if b is None:
+        return
+    o = Origin(b)
+    ex = Exits(b)
+    okb = set(ex.ok_blocks())
+    w2f = [bi for bi, t in b.calls(lambda c: c.is_(c01.W2F))]
+    ctx.floor(R, "write_to_file calls in generate_dump", len(w2f), 19)
+    branches = {}
+    for bj, t in b.calls(lambda c: c.short == "std::ops::Try::branch"):
+        a0 = strip(o.call_args(bj)[0])
+        if a0[0] == "call" and a0[1] == c01.W2F and a0[3] and a0[3][0] == b.short:
+            branches.setdefault(a0[3][1], []).append(bj)
+    n = 0
+    for k, bi in enumerate(w2f):
+        brs = branches.get(bi, [])
+        if len(brs) != 1:
+            ctx.violated(R, ("flush", k + 1), b.where(bi), "the result of this destination flush is not propagated with `?` (it is ignored, downgraded or handled locally): "
+                         "after a failed write/seek the dump would carry on writing at an unknown destination position and could still report success")
+            continue
+        sw = b.term(brs[0])["t"]
+        E = None
+        for (tgt, lab) in b.succ_edges(sw):
+            if lab[0] == "sw" and lab[1] == 1:
+                E = tgt
+        if E is None:
+            ctx.unproven(R, ("flush", k + 1), b.where(bi), "cannot find the failure arm of the propagated result")
+            continue
+        reach = b.reachable_from(E, unwind=False)
+        bad = [b.where(x) for x in reach if x in okb or x in w2f]
+        ctx.check(not bad, R, ("flush", k + 1), b.where(bi), "a failed flush returns the error without touching the destination again",
+                  "after a failed flush control can still reach %s" % bad[:3], nontrivial=False)
+        n += 1
+    ctx.floor(R, "propagated flush results", n, 19)
+
+
 def run(ctx):
     rule_seek_targets(ctx)
     rule_save_restore(ctx)
@@ -270,6 +311,7 @@ def run(ctx):
     # comes after the append it names (same rule instance as C10/bytes-before-dirent): a failing append must not leave a patched slot
     from rules import c10
     c10.rule_bytes_before_dirent(ctx, R="C09/append-before-slot")
+    rule_dest_errors_abort(ctx)
 
 
 def thorough(ctx):
